@@ -194,7 +194,7 @@ func DrawSignCase(t *rapid.T) SignCase {
 	c.D, c.DEnc, kcls = PrivKey(t, "d")
 	c.Classes = append(c.Classes, "key:"+kcls)
 	r := gen.Rand(t, "content")
-	mode := gen.Pick(t, "mode", "plain", "plain", "shaped", "shaped", "r=0", "r+k=n", "s=0", "extreme-x1")
+	mode := gen.Pick(t, "mode", "plain", "plain", "shaped", "shaped", "r=0", "r+k=n", "s=0", "extreme-x1", "near-rejection")
 	if mode == "extreme-x1" && len(ExtremeX1Nonces) == 0 {
 		mode = "plain"
 	}
@@ -206,6 +206,48 @@ func DrawSignCase(t *rapid.T) SignCase {
 		c.E = gen.RandBytes(r, 32)
 		if gen.Int(t, "e.ext", 0, 5) == 0 {
 			c.E, _ = gen.Bytes32(t, "e")
+		}
+	case "near-rejection":
+		// the first candidate is ACCEPTABLE, but only just: the digest is tied to the nonce so that r (to be compared with 0) or r+k
+		// (to be compared with n) differs from its constant by one power of two, or only in the upper halves of some 64-bit words
+		// (D = sum of c_i * 2^(32+64i)) — what a comparison that folds words or halves carelessly takes for equal
+		for try := 0; try < 50; try++ {
+			k1 := new(big.Int).SetBytes(gen.RandBytes(r, 40))
+			k1.Mod(k1, NM1).Add(k1, one)
+			D := new(big.Int)
+			if gen.Bool(t, "nr.pow2") {
+				D.Lsh(one, uint(gen.Uniform(t, "nr.j", 0, 255)))
+			} else {
+				for i := 0; i < 4; i++ {
+					if c := int64(gen.Uniform(t, fmt.Sprintf("nr.c%d", i), 0, 3)); c != 0 {
+						D.Add(D, new(big.Int).Lsh(big.NewInt(c*int64(1+r.Intn(0xffffff))), uint(32+64*i)))
+					}
+				}
+			}
+			if gen.Bool(t, "nr.neg") {
+				D.Neg(D)
+			}
+			if D.Sign() == 0 {
+				continue
+			}
+			var rr *big.Int
+			if gen.Bool(t, "nr.onR") {
+				rr = modn(new(big.Int).Set(D)) // r = D (or n - |D|)
+			} else {
+				rr = new(big.Int).Add(N, D) // r + k = n + D
+				rr.Sub(rr, k1)
+			}
+			if rr.Sign() <= 0 || rr.Cmp(N) >= 0 {
+				continue
+			}
+			x1 := sm2ref.Mul(k1, sm2ref.G).X
+			c.E = gen.Pad32(modn(new(big.Int).Sub(rr, x1)))
+			good = k1
+			c.Classes = append(c.Classes, "near-rejection")
+			break
+		}
+		if good == nil {
+			c.E = gen.RandBytes(r, 32)
 		}
 	case "extreme-x1":
 		// a nonce whose x([k]G) is within 2^224 of p, with a digest at the top of the 256-bit range: e + x1 >= 2n
